@@ -5,7 +5,8 @@ EXTENDS MC_EvalBase
 \* ---- C10: referenced fields
 L10 == { Id("a"), Id("b"), Id("p$q"), SelE(Id("a"), "$r"), SelE(Id("a"), "b"), SelE(SelE(Id("a"), "b"), "c"), SelA(Id("a"), "k"), Id("$l"), N(1), KwL("this"), SelE(KwL("this"), "a"), Id("e"),
          SelE(Id("$l"), "b"), SelA(SelE(Id("$l"), "a"), "k"),
-         Id("B"), SelE(Id("A"), "b"), Id("len"), Id("max") }           \* case twins of a and b; names shared with builtins, in value position           \* paths rooted at a local: no fields of the data
+         Id("B"), SelE(Id("A"), "b"), Id("len"), Id("max"),
+         SelE(Id("a"), "null"), SelE(SelE(Id("a"), "this"), "b"), SelA(Id("b"), "ctx"), SelE(Id("a"), "typeof") }      \* keywords are ordinary names after a dot           \* case twins of a and b; names shared with builtins, in value position           \* paths rooted at a local: no fields of the data
 U10 == L10 \cup { P(e) : e \in {Id("a"), SelE(Id("a"), "b")} } \cup { <<"Pre", "-", e>> : e \in {Id("b"), SelE(Id("a"), "k")} }
            \cup { <<"Typeof", e>> : e \in {Id("b"), SelE(Id("a"), "b")} }
            \cup { Call1("f", e) : e \in L10 } \cup { Call1("g", e) : e \in {Id("b"), Id("$l")} }
